@@ -3,7 +3,8 @@
    BitvectorCorrect.v / BitvectorFormula.v are not vacuous: for every tree of
    Leaf.qexp whose numerals are decimal, whose variables are declared in the
    table with well-formed hints ([q_anode] = Some), whose widths stay below
-   the 32-bit limit ([aok]) and every fuel >= depth + 33, g_flatten returns
+   the 32-bit limit ([aok]) and every fuel with depth + 33 < fuel (terms;
+   depth + 34 < fuel for comparisons and formulas), g_flatten returns
    the threading model; likewise Comparator.flatten on two such terms and
    the connectives on formulas of Leaf.bexp. *)
 From Coq Require Import String Ascii ZArith List Bool Lia.
@@ -125,10 +126,10 @@ Variable ext_flatten def_flatten : pnode -> option (list bx) -> kwargs defs
                                    -> option (fres * option (list bx)).
 Variable t : PyStr.table.
 Notation flat := (g_flatten defs defs_mem var_id ext_flatten def_flatten).
-Notation no_defs := (no_defs defs defs_mem).
+Notation nodef_on := (nodef_on defs defs_mem).
 
 Theorem q_flatten_succeeds : forall e kw a mem fuel,
-  k_t kw = Some t -> no_defs kw ->
+  k_t kw = Some t -> nodef_on kw (qnames e) ->
   q_anode var_id t (py_truth (k_prime kw)) e = Some a ->
   aok a mem = true -> (qdepth e + 33 < fuel)%nat ->
   flat fuel (qnode e) (Some mem) kw
@@ -143,13 +144,13 @@ Proof.
   - destruct (d_var_flatten var_id t n (py_truth (k_prime kw))) as [[b|bits|f|p]|] eqn:E;
       try discriminate. injection H as <-.
     rewrite (var_flatten_is_model defs defs_mem var_id ext_flatten def_flatten fuel n
-               (Some mem) kw t Ht (Hd n)), E. reflexivity.
+               (Some mem) kw t Ht (Hd n (or_introl eq_refl))), E. reflexivity.
   - destruct (String.eqb op "X" || String.eqb op "'")%bool eqn:O; [|discriminate].
     destruct (q_anode var_id t true e) as [a'|] eqn:E; [|discriminate]. injection H as <-.
     cbn [g_flatten]. eval_goal_strings. cbv beta iota zeta. rewrite O.
     change (py_index [qnode e] 0) with (Some (qnode e)). cbv beta iota.
     cbn [aok d_aflat] in G |- *.
-    rewrite (IH (kw_set_prime kw) a' mem fuel Ht (no_defs_prime _ _ _ Hd) E G ltac:(lia)).
+    rewrite (IH (kw_set_prime kw) a' mem fuel Ht (nodef_on_prime _ _ _ _ Hd) E G ltac:(lia)).
     reflexivity.
   - destruct (aop_of_string op) as [o'|] eqn:O; [|discriminate].
     destruct (q_anode var_id t (py_truth (k_prime kw)) e1) as [a1|] eqn:E1; [|discriminate].
@@ -157,9 +158,10 @@ Proof.
     assert (o' = o) by (destruct o, o'; try discriminate; reflexivity). subst o'.
     match type of H with (if ?c then _ else _) = _ => destruct c; [|discriminate] end.
     injection H as <-. cbn [aok d_aflat] in G |- *.
-    pose proof (IH1 kw a1 mem fuel Ht Hd E1) as S1.
+    destruct (nodef_on_app _ _ _ _ _ Hd) as [Hd1 Hd2].
+    pose proof (IH1 kw a1 mem fuel Ht Hd1 E1) as S1.
     destruct (d_aflat a1 mem) as [p m1]. 
-    pose proof (IH2 kw a2 m1 fuel Ht Hd E2) as S2.
+    pose proof (IH2 kw a2 m1 fuel Ht Hd2 E2) as S2.
     destruct (d_aflat a2 m1) as [q m2]. cbn [fst snd] in *.
     apply andb_prop in G. destruct G as [G G3]. apply andb_prop in G. destruct G as [G1 G2].
     cbn [g_flatten]. eval_goal_strings. cbv beta iota zeta.
@@ -177,7 +179,7 @@ Qed.
 
 (* Comparator.flatten on two such terms *)
 Theorem q_comparator_succeeds : forall op o l r la ra kw fuel,
-  k_t kw = Some t -> no_defs kw -> cmp_of_string op = Some o ->
+  k_t kw = Some t -> nodef_on kw (qnames l ++ qnames r) -> cmp_of_string op = Some o ->
   q_anode var_id t (py_truth (k_prime kw)) l = Some la ->
   q_anode var_id t (py_truth (k_prime kw)) r = Some ra ->
   aok la [] = true -> aok ra (snd (d_aflat la [])) = true ->
@@ -187,12 +189,13 @@ Theorem q_comparator_succeeds : forall op o l r la ra kw fuel,
   = Some (RBuf (FBuf (py_len (d_cmp_flat o la ra)) (d_cmp_flat o la ra)), None).
 Proof.
   intros op o l r la ra kw fuel Ht Hd Ho El Er Gl Gr Gc Hf. destruct fuel as [|fuel]; [lia|].
+  destruct (nodef_on_app _ _ _ _ _ Hd) as [Hdl Hdr].
   cbn [g_flatten]. eval_goal_strings. cbv beta iota zeta.
   change (py_index [qnode l; qnode r] 0) with (Some (qnode l)).
   change (py_index [qnode l; qnode r] 1) with (Some (qnode r)). cbv beta iota zeta.
-  rewrite (q_flatten_succeeds l kw la [] fuel Ht Hd El Gl ltac:(lia)). cbv beta iota zeta.
+  rewrite (q_flatten_succeeds l kw la [] fuel Ht Hdl El Gl ltac:(lia)). cbv beta iota zeta.
   unfold d_cmp_flat. destruct (d_aflat la []) as [p m1]. cbn [fst snd] in *.
-  rewrite (q_flatten_succeeds r kw ra m1 fuel Ht Hd Er Gr ltac:(lia)). cbv beta iota zeta.
+  rewrite (q_flatten_succeeds r kw ra m1 fuel Ht Hdr Er Gr ltac:(lia)). cbv beta iota zeta.
   destruct (d_aflat ra m1) as [q m2]. cbn [fst snd is_bits andb] in *. cbv beta iota zeta.
   rewrite (g_flatten_comparator_some op o p q m2 Ho Gc). reflexivity.
 Qed.
@@ -222,7 +225,7 @@ Fixpoint bok (e : bexp) : Prop :=
   end.
 
 Theorem b_flatten_succeeds : forall e kw fuel,
-  k_t kw = Some t -> no_defs kw -> py_truth (k_prime kw) = false -> bok e ->
+  k_t kw = Some t -> nodef_on kw (bnames e) -> py_truth (k_prime kw) = false -> bok e ->
   (bdepth e + 34 < fuel)%nat ->
   exists r p, flat fuel (bnode e) None kw = Some (r, None) /\ px_of_fres r = Some p.
 Proof.
@@ -233,7 +236,7 @@ Proof.
     destruct W as [E|E]; [rewrite (T E)|rewrite (F E)]; eexists; eexists; split; reflexivity.
   - destruct W as [gb G].
     rewrite (var_flatten_is_model defs defs_mem var_id ext_flatten def_flatten fuel n None kw t
-               Ht (Hd n)), Hp, G.
+               Ht (Hd n (or_introl eq_refl))), Hp, G.
     eexists. eexists. split; reflexivity.
   - destruct W as (o & la & ra & Ho & El & Er & Gl & Gr & Gc). rewrite <- Hp in El, Er.
     rewrite (q_comparator_succeeds op o l r0 la ra kw (S fuel) Ht Hd Ho El Er Gl Gr Gc ltac:(lia)).
@@ -246,8 +249,9 @@ Proof.
     rewrite E. cbv beta iota zeta. rewrite P. cbv beta iota zeta.
     eexists. eexists. split; reflexivity.
   - destruct W as ([o Ho] & Wa & Wb).
-    destruct (IHa kw fuel Ht Hd Hp Wa ltac:(lia)) as (ra & pa & Ea & Pa).
-    destruct (IHb kw fuel Ht Hd Hp Wb ltac:(lia)) as (rb & pb & Eb & Pb).
+    destruct (nodef_on_app _ _ _ _ _ Hd) as [Hda Hdb].
+    destruct (IHa kw fuel Ht Hda Hp Wa ltac:(lia)) as (ra & pa & Ea & Pa).
+    destruct (IHb kw fuel Ht Hdb Hp Wb ltac:(lia)) as (rb & pb & Eb & Pb).
     assert (Ia : is_bits ra = false) by (destruct ra; try reflexivity; discriminate).
     assert (Ib : is_bits rb = false) by (destruct rb; try reflexivity; discriminate).
     unfold bop_of_string in Ho.
@@ -268,7 +272,7 @@ Variable env : string -> bool -> Z.
 Variable benv : string -> bool.
 
 Theorem translated_comparison_total : forall op o l r la ra kw fuel vl vr,
-  k_t kw = Some t -> no_defs kw -> cmp_of_string op = Some o ->
+  k_t kw = Some t -> nodef_on kw (qnames l ++ qnames r) -> cmp_of_string op = Some o ->
   q_anode var_id t (py_truth (k_prime kw)) l = Some la ->
   q_anode var_id t (py_truth (k_prime kw)) r = Some ra ->
   aok la [] = true -> aok ra (snd (d_aflat la [])) = true ->
@@ -291,7 +295,7 @@ Proof.
 Qed.
 
 Theorem translated_formula_total : forall e kw fuel v,
-  k_t kw = Some t -> no_defs kw -> py_truth (k_prime kw) = false -> bok e ->
+  k_t kw = Some t -> nodef_on kw (bnames e) -> py_truth (k_prime kw) = false -> bok e ->
   (bdepth e + 34 < fuel)%nat ->
   encodes var_id vars t env -> encodes_bool var_id vars t benv ->
   bsem env benv e = Some v ->
